@@ -196,6 +196,14 @@ def drive(tier):
                           {"k": "ret", "ver": o.witver, "prog": b2l(o)} if k == "ret" else
                           ({"k": "none"} if type(o).__name__ in ("Bech32Error", "Bech32ChecksumError") else dict(exc_info(o), k="exc")))
     bitcoin.SelectParams("mainnet")
+    # a prefix that merely begins with the expected one (and contains a separator itself) is another prefix
+    for hrp_ in ("bc", "tb", "bcrt"):
+        for longer in (hrp_ + "1q", hrp_ + "1", hrp_ + "1" + hrp_, hrp_ + "x"):
+            for ver, n in ((0, 20), (1, 32)):
+                prog = gen.rbytes(r, n)
+                t_ = sa.bech32_encode(longer, [ver] + sa.convertbits(list(prog), 8, 5))
+                rec_decode(hrp_, t_)
+                rec_decode(hrp_, t_.upper())
     # an empty human-readable part is no prefix at all: the separator cannot be the first character
     for ver, n in ((0, 20), (0, 32), (1, 10)):
         prog = gen.rbytes(r, n)
